@@ -127,7 +127,7 @@ Section WithCfg.
         * intros k q Hk. apply nth_error_set_nth_cases in Hk. destruct Hk as [[-> ->]|Hk]; [|eauto].
           apply Forall_app; split; [eauto|]. constructor; [assumption|constructor].
     - (* D *)
-      unfold step_d in Hs. destruct (dp s) as [j ae|j|j u y|j u r|j u r|] eqn:Ed; destruct ex; try discriminate Hs; cbn in Hdp.
+      unfold step_d in Hs. destruct (dp s) as [j ae|j|j u y|j u r|j u r] eqn:Ed; destruct ex; try discriminate Hs; cbn in Hdp.
       + destruct (nth_error (qouts s) j) as [[|p q]|] eqn:Eq; inv Hs; unfold Inv, set_dp, upd; cbn;
           repeat split; try assumption; try exact I.
         destruct (S j <? nmem g); exact I.
@@ -187,3 +187,117 @@ Section WithCfg.
     apply H.
   Qed.
 End WithCfg.
+
+(* ---- C04: an EnsembleError is emitted only under the documented rules --------------------- *)
+
+Section ErrorRule.
+  Variable g : cfg.
+  Hypothesis uids_distinct : NoDup (map fst (reqs g)).
+
+  (* why an EnsembleError for input x is legitimate *)
+  Definition err_justified (x : Z) : Prop :=
+    if fail_fast g then exists j, j < nmem g /\ is_err (mfun g j x) = true
+    else forall k, k < nmem g -> is_err (mfun g k x) = true.
+
+  Definition eres_just (u : nat) (r : eres) : Prop :=
+    match r with
+    | EError => exists x, In (u, x) (reqs g) /\ err_justified x
+    | EList _ => True
+    end.
+
+  Definition dp_just (d : dpc) : Prop :=
+    match d with
+    | DCat j _ _ => j < nmem g
+    | DGet j | DChk j _ => j <= nmem g
+    | DPop j u r | DEmit j u r => j < nmem g /\ eres_just u r
+    end.
+
+  Definition InvE (s : state) : Prop :=
+    Inv g s
+    /\ Forall (fun en => length (e_slots en) = nmem g) (catalog s)
+    /\ dp_just (dp s)
+    /\ Forall (fun p => eres_just (fst p) (snd p)) (qout s)
+    /\ length (qouts s) = nmem g.
+
+  Lemma set_nth_length {A} n (x : A) l : length (set_nth n x l) = length l.
+  Proof. revert n; induction l as [|h t IH]; intros [|n]; cbn; auto. Qed.
+
+  Lemma all_filled_err_nth slots k :
+    all_filled_err slots = true -> k < length slots -> exists e, nth_error slots k = Some (Some (Err e)).
+  Proof.
+    unfold all_filled_err. revert k; induction slots as [|o r IH]; intros k H Hk; cbn in *; [lia|].
+    apply andb_true_iff in H. destruct H as [H1 H2]. destruct k as [|k]; cbn.
+    - destruct o as [[v|e]|]; try discriminate. eauto.
+    - apply IH; [assumption|lia].
+  Qed.
+
+  Lemma inve_init : InvE (init g).
+  Proof.
+    unfold InvE, init; cbn. repeat split; try constructor; try apply (inv_init g); try lia.
+    now rewrite repeat_length.
+  Qed.
+
+  Lemma inve_step s l s' e : InvE s -> step g s l = Some (s', e) -> InvE s'.
+  Proof.
+    intros (HI & Hlen & Hdp & Hqo & Hnq) Hs.
+    assert (HI' : Inv g s') by (eapply inv_step; eauto).
+    split; [exact HI'|].
+    destruct HI as (_ & _ & _ & _ & Hqouts & Hcat & HdpI & _).
+    destruct l as [| |ex|j|j]; cbn in Hs.
+    - unfold step_env in Hs. break_match_hyp Hs; inv Hs; unfold upd; cbn. repeat split; assumption.
+    - unfold step_e in Hs. break_match_hyp Hs; inv Hs; unfold upd; cbn; repeat split; try assumption.
+      unfold cat_set. apply Forall_app; split; [apply forall_filter; assumption|].
+      constructor; [cbn; apply repeat_length|constructor].
+    - unfold step_d in Hs. destruct (dp s) as [j ae|j|j u y|j u r|j u r] eqn:Ed; destruct ex; try discriminate Hs; cbn in Hdp.
+      + assert (Hjr : nth_error (qouts s) j <> None -> j < nmem g)
+          by (intros Hn; rewrite <- Hnq; apply nth_error_Some; exact Hn).
+        destruct (nth_error (qouts s) j) as [[|p q]|] eqn:Eq; inv Hs; unfold set_dp, upd; cbn;
+          (split; [assumption|split; [|split; assumption]]).
+        * destruct (S j <? nmem g) eqn:E; bool_to_prop; cbn; lia.
+        * assert (j < nmem g) by (apply Hjr; discriminate). lia.
+      + assert (Hjr : nth_error (qouts s) j <> None -> j < nmem g)
+          by (intros Hn; rewrite <- Hnq; apply nth_error_Some; exact Hn).
+        destruct (nth_error (qouts s) j) as [[|[u y] q]|] eqn:Eq; try discriminate. inv Hs. unfold upd; cbn.
+        split; [assumption|split; [|split; [assumption|now rewrite set_nth_length]]].
+        apply Hjr; discriminate.
+      + destruct (cat_find u (catalog s)) as [en|] eqn:Ec.
+        * destruct (cat_find_in _ _ _ Ec) as [Hin Hu]. inv Hs. unfold upd; cbn.
+          rewrite Forall_forall in Hcat, Hlen. pose proof (Hcat _ Hin) as (x & Hx & Hslots).
+          pose proof (Hlen _ Hin) as Hl.
+          destruct HdpI as (x' & Hx' & Hy). cbn in Hx', Hy.
+          assert (x' = x) by (eapply (same_input g uids_distinct); eauto; rewrite <- Hu; exact Hx). subst x'.
+          repeat split; try assumption.
+          -- apply Forall_forall. intros e' He'. apply in_map_iff in He'. destruct He' as (e0 & <- & He0).
+             destruct (Nat.eqb (e_uid e0) (e_uid en)); cbn; [rewrite set_nth_length; exact Hl|apply Hlen; assumption].
+          -- destruct (fail_fast g && is_err y) eqn:Eff; cbn.
+             ++ apply andb_true_iff in Eff. destruct Eff as [Eff Ey]. split; [exact Hdp|].
+                exists x. split; [exact Hx|]. unfold err_justified. rewrite Eff. exists j. split; [exact Hdp|congruence].
+             ++ destruct (Nat.eqb (S (e_n en)) (nmem g)) eqn:En; cbn; [|lia].
+                split; [exact Hdp|].
+                destruct (all_filled_err (set_nth j (Some y) (e_slots en))) eqn:Ea; [|exact I].
+                exists x. split; [exact Hx|]. unfold err_justified.
+                assert (Hall : forall k, k < nmem g -> is_err (mfun g k x) = true).
+                { intros k Hk. destruct (all_filled_err_nth _ k Ea) as [e0 He0]; [rewrite set_nth_length; lia|].
+                  apply nth_error_set_nth_cases in He0. destruct He0 as [[-> He0]|He0].
+                  - injection He0 as He0. rewrite <- Hy, <- He0. reflexivity.
+                  - rewrite <- (Hslots _ _ He0). reflexivity. }
+                destruct (fail_fast g); [|exact Hall].
+                exists j. split; [exact Hdp|apply Hall; exact Hdp].
+        * inv Hs. unfold set_dp, upd; cbn. repeat split; try assumption. lia.
+      + inv Hs. unfold upd; cbn. destruct Hdp as [Hj Hr]. repeat split; try assumption.
+        unfold cat_remove. apply forall_filter. assumption.
+      + inv Hs. unfold upd; cbn. destruct Hdp as [Hj Hr]. repeat split; try assumption; try lia.
+        apply Forall_app; split; [assumption|]. constructor; [exact Hr|constructor].
+    - unfold step_mt in Hs. break_match_hyp Hs; inv Hs; unfold upd; cbn. repeat split; assumption.
+    - unfold step_mp in Hs. break_match_hyp Hs; inv Hs; unfold upd; cbn. repeat split; try assumption.
+      now rewrite set_nth_length.
+  Qed.
+End ErrorRule.
+
+Lemma ensemble_error_justified g (Hd : NoDup (map fst (reqs g))) sched :
+  Forall (fun p => eres_just g (fst p) (snd p)) (qout (run step g (init g) sched)).
+Proof.
+  assert (H : InvE g (run step g (init g) sched)).
+  { apply (inv_run step g (InvE g)); [intros; eapply inve_step; eauto | apply inve_init]. }
+  apply H.
+Qed.
